@@ -6,14 +6,18 @@
 //   frame script <configs.ndjson> <out.ndjson>
 //   frame random <out.ndjson> <count>            (seed: VERIF_SEED)
 //
+//   frame compiler <out.ndjson>                 frames derived the way the Compiler derives them (BaseRAPass::update_stack_frame)
+//
 // configuration (one JSON object per line):
 //   {"env":"x64-sysv|x64-win|x86-sysv|x86-win|a64-aapcs|a64-apple","cc":"cdecl|stdcall|...",
-//    "d":[[gp ids],[vec ids],[k ids],[mm ids]]   registers the body clobbers (added to the frame's dirty sets)
-//    "ls":local size,"la":local alignment (0 = not set),"cs":call stack size,"ca":call stack alignment (0 = not set),
-//    "fp":0|1 preserved frame pointer,"avx":0|1|2 (2 = AVX+AVX-512),"mmx":0|1 (emms),"avxc":0|1|2 (vzeroupper: no/always/auto),
-//    "nargs":number of pointer-sized integer arguments,"sa":255|reg id (stack-arguments base register),
-//    "calls":0|1 (function calls other functions),"ibt":0|1,
-//    "cp":[[ ],[vec ids],[k ids],[mm ids]]       user-defined convention: registers ADDED to the preserved sets}
+//    "nargs":number of pointer-sized integer arguments,
+//    "cp":[[ ],[vec ids],[k ids],[mm ids]]       user-defined convention: registers ADDED to the preserved sets
+//    "ops":[{"op":name,"a":int,"g":group,"ids":[reg ids]},...]   the FuncFrame setter calls, executed IN THIS ORDER between
+//          FuncFrame::init() and finalize():  set_ls/update_ls (local stack size), set_la/update_la (local stack alignment),
+//          set_cs/update_cs (call stack size), set_ca/update_ca (call stack alignment), add_dirty/set_dirty (g, ids),
+//          set_fp/reset_fp, set_calls/reset_calls, set_avx/reset_avx, set_avx512/reset_avx512, set_mmx/reset_mmx,
+//          set_avxc/reset_avxc, set_avxauto/reset_avxauto, set_ibt/reset_ibt, set_sa (a = reg id)/reset_sa}
+// What the sequence MEANS (set_* assigns, update_* takes the maximum, ...) is stated in FrameMachine.tla, not here.
 #include <asmjit/core.h>
 #include <asmjit/x86.h>
 #include <asmjit/a64.h>
@@ -138,44 +142,82 @@ static unsigned put_insts(vj::W& w, const char* key, BuilderT& b, BaseNode* afte
 }
 
 static void put_cfg_echo(vj::W& w, const vj::Value& in) {
-  auto num = [&](const char* k, long long dflt) { w.kv(k, in.has(k) ? in[k].i() : dflt); };
-  auto sets = [&](const char* k) {
-    w.key(k).beginArr();
-    for (unsigned g = 0; g < 4; g++) {
-      w.beginArr();
-      if (in.has(k) && g < in[k].arr.size()) for (auto& v : in[k].arr[g].arr) w.val(v.i());
-      w.endArr();
-    }
+  w.key("cfg").beginObj().kv("env", in["env"].s()).kv("cc", in["cc"].s()).kv("src", in.has("src") ? in["src"].s() : std::string("spec"));
+  w.kv("nargs", in.has("nargs") ? in["nargs"].i() : 0LL);
+  w.key("cp").beginArr();
+  for (unsigned g = 0; g < 4; g++) {
+    w.beginArr();
+    if (in.has("cp") && g < in["cp"].arr.size()) for (auto& v : in["cp"].arr[g].arr) w.val(v.i());
     w.endArr();
-  };
-  w.key("cfg").beginObj().kv("env", in["env"].s()).kv("cc", in["cc"].s());
-  sets("d");
-  num("ls", 0); num("la", 0); num("cs", 0); num("ca", 0); num("fp", 0); num("avx", 0); num("mmx", 0); num("avxc", 0);
-  num("nargs", 0); num("sa", 255); num("calls", 0); num("ibt", 0);
-  sets("cp");
+  }
+  w.endArr();
+  w.key("ops").beginArr();
+  for (auto& o : in["ops"].arr) {
+    w.beginObj().kv("op", o["op"].s()).kv("a", o.has("a") ? o["a"].i() : 0LL).kv("g", o.has("g") ? o["g"].i() : 0LL);
+    w.key("ids").beginArr();
+    if (o.has("ids")) for (auto& v : o["ids"].arr) w.val(v.i());
+    w.endArr().endObj();
+  }
+  w.endArr();
   w.endObj();
 }
+
+// executes ONE recorded setter call on the real FuncFrame
+static bool apply_op(FuncFrame& frame, const vj::Value& o) {
+  const std::string& op = o["op"].s();
+  uint32_t a = (uint32_t)(o.has("a") ? o["a"].i() : 0);
+  RegGroup g = RegGroup(o.has("g") ? o["g"].i() : 0);
+  if (op == "set_ls") frame.set_local_stack_size(a);
+  else if (op == "update_ls") frame.update_local_stack_size(a);
+  else if (op == "set_la") frame.set_local_stack_alignment(a);
+  else if (op == "update_la") frame.update_local_stack_alignment(a);
+  else if (op == "set_cs") frame.set_call_stack_size(a);
+  else if (op == "update_cs") frame.update_call_stack_size(a);
+  else if (op == "set_ca") frame.set_call_stack_alignment(a);
+  else if (op == "update_ca") frame.update_call_stack_alignment(a);
+  else if (op == "add_dirty") frame.add_dirty_regs(g, mask_of(o["ids"]));
+  else if (op == "set_dirty") frame.set_dirty_regs(g, mask_of(o["ids"]));
+  else if (op == "set_fp") frame.set_preserved_fp();
+  else if (op == "reset_fp") frame.reset_preserved_fp();
+  else if (op == "set_calls") frame.set_func_calls();
+  else if (op == "reset_calls") frame.reset_func_calls();
+  else if (op == "set_avx") frame.set_avx_enabled();
+  else if (op == "reset_avx") frame.reset_avx_enabled();
+  else if (op == "set_avx512") frame.set_avx512_enabled();
+  else if (op == "reset_avx512") frame.reset_avx512_enabled();
+  else if (op == "set_mmx") frame.set_mmx_cleanup();
+  else if (op == "reset_mmx") frame.reset_mmx_cleanup();
+  else if (op == "set_avxc") frame.set_avx_cleanup();
+  else if (op == "reset_avxc") frame.reset_avx_cleanup();
+  else if (op == "set_avxauto") frame.set_avx_auto_cleanup();
+  else if (op == "reset_avxauto") frame.reset_avx_auto_cleanup();
+  else if (op == "set_ibt") frame.set_indirect_branch_protection();
+  else if (op == "reset_ibt") frame.reset_indirect_branch_protection();
+  else if (op == "set_sa") frame.set_sa_reg_id(a);
+  else if (op == "reset_sa") frame.reset_sa_reg_id();
+  else return false;
+  return true;
+}
+
+// logs one observation: `frame` is finalized (or an error is recorded); emits prolog/epilog into a fresh Builder
+template<typename BuilderT, typename AssemblerT>
+static void log_observation(vj::W& w, const Environment& env, const FuncDetail& fd, bool custom, const FuncFrame& frame,
+                            Error e_fd, Error e_fi, Error e_fin, FILE* out);
 
 template<typename BuilderT, typename AssemblerT>
 static void run_config(const vj::Value& in, const Environment& env, FILE* out) {
   vj::W w;
-  auto geti = [&](const char* k, long long dflt) { return in.has(k) ? in[k].i() : dflt; };
   CallConvId ccid;
   if (!conv_from_name(in["cc"].s(), ccid)) { fprintf(stderr, "bad cc\n"); exit(3); }
 
   w.beginObj();
   put_cfg_echo(w, in);
-  w.kv("family", env.is_family_x86() ? "x86" : "a64").kv("bits", env.is_32bit() ? 32 : 64);
 
   FuncSignature sig;
   sig.set_call_conv_id(ccid);
   sig.set_ret(TypeId::kVoid);
-  unsigned nargs = (unsigned)geti("nargs", 0);
+  unsigned nargs = (unsigned)(in.has("nargs") ? in["nargs"].i() : 0);
   for (unsigned i = 0; i < nargs && sig.can_add_arg(); i++) sig.add_arg(TypeId::kIntPtr);
-
-  CodeHolder code;
-  code.init(env);
-  BuilderT b(&code);
 
   FuncDetail fd;
   Error e_fd = fd.init(sig, env);
@@ -188,27 +230,25 @@ static void run_config(const vj::Value& in, const Environment& env, FILE* out) {
     }
   }
   FuncFrame frame;
-  Error e_fi = Error::kOk, e_fin = Error::kOk, e_pro = Error::kOk, e_epi = Error::kOk, e_enc = Error::kOk;
+  Error e_fi = Error::kOk, e_fin = Error::kOk;
   if (e_fd == Error::kOk) {
     e_fi = frame.init(fd);
     if (e_fi == Error::kOk) {
-      if (in.has("d")) for (unsigned g = 0; g < 4 && g < in["d"].arr.size(); g++) frame.add_dirty_regs(RegGroup(g), mask_of(in["d"].arr[g]));
-      if (geti("ls", 0)) frame.set_local_stack_size((uint32_t)geti("ls", 0));
-      if (geti("la", 0)) frame.set_local_stack_alignment((uint32_t)geti("la", 0));
-      if (geti("cs", 0)) frame.update_call_stack_size((uint32_t)geti("cs", 0));
-      if (geti("ca", 0)) frame.update_call_stack_alignment((uint32_t)geti("ca", 0));
-      if (geti("fp", 0)) frame.set_preserved_fp();
-      if (geti("avx", 0) >= 1) frame.set_avx_enabled();
-      if (geti("avx", 0) >= 2) frame.set_avx512_enabled();
-      if (geti("mmx", 0)) frame.set_mmx_cleanup();
-      if (geti("avxc", 0) == 1) frame.set_avx_cleanup();
-      if (geti("avxc", 0) == 2) frame.set_avx_auto_cleanup();
-      if (geti("calls", 0)) frame.set_func_calls();
-      if (geti("ibt", 0)) frame.set_indirect_branch_protection();
-      if (geti("sa", 255) != 255) frame.set_sa_reg_id((uint32_t)geti("sa", 255));
+      for (auto& o : in["ops"].arr) if (!apply_op(frame, o)) { fprintf(stderr, "bad op %s\n", o["op"].s().c_str()); exit(3); }
       e_fin = frame.finalize();
     }
   }
+  log_observation<BuilderT, AssemblerT>(w, env, fd, custom, frame, e_fd, e_fi, e_fin, out);
+}
+
+template<typename BuilderT, typename AssemblerT>
+static void log_observation(vj::W& w, const Environment& env, const FuncDetail& fd, bool custom, const FuncFrame& frame,
+                            Error e_fd, Error e_fi, Error e_fin, FILE* out) {
+  w.kv("family", env.is_family_x86() ? "x86" : "a64").kv("bits", env.is_32bit() ? 32 : 64);
+  CodeHolder code;
+  code.init(env);
+  BuilderT b(&code);
+  Error e_pro = Error::kOk, e_epi = Error::kOk, e_enc = Error::kOk;
 
   BaseNode* start = b.last_node();
   BaseNode* mid = start;
@@ -310,6 +350,29 @@ static std::string ids_json(uint32_t m) {
   return s + "]";
 }
 
+// one setter call as JSON text
+static std::string op_json(const char* op, long long a = 0, unsigned g = 0, uint32_t ids = 0) {
+  return std::string("{\"op\":\"") + op + "\",\"a\":" + std::to_string(a) + ",\"g\":" + std::to_string(g) + ",\"ids\":" + ids_json(ids) + "}";
+}
+
+// A value is installed by a short CHAIN of calls of one setter family (set, update, set+update, update+update, set+set, ...);
+// the chains of all families are then merged in a random order (each chain keeps its own order).
+static void value_chain(vj::Rng& r, std::vector<std::vector<std::string>>& chains, const char* set_op, const char* upd_op, unsigned v, bool pow2) {
+  if (v == 0 && r.chance(2, 3)) return;
+  unsigned lo = pow2 ? v / 2 : (v ? (unsigned)r.below(v) : 0), hi = pow2 ? (v && v < 64 ? v * 2 : v) : v + (unsigned)r.below(64);
+  std::vector<std::string> c;
+  switch (r.below(7)) {
+    case 0: c = {op_json(set_op, v)}; break;
+    case 1: c = {op_json(upd_op, v)}; break;
+    case 2: c = {op_json(set_op, lo), op_json(upd_op, v)}; break;
+    case 3: c = {op_json(set_op, v), op_json(upd_op, lo)}; break;
+    case 4: c = {op_json(upd_op, hi), op_json(set_op, v)}; break;
+    case 5: c = {op_json(upd_op, lo), op_json(upd_op, v), op_json(upd_op, lo)}; break;
+    default: c = {op_json(set_op, hi), op_json(set_op, v)}; break;
+  }
+  chains.push_back(c);
+}
+
 static std::string random_config(vj::Rng& r) {
   static const char* envs[] = {"x64-sysv", "x64-win", "x86-sysv", "x86-win", "a64-aapcs", "a64-apple"};
   static const char* ccs86[] = {"cdecl", "stdcall", "fastcall", "vectorcall", "thiscall", "regparm1", "regparm2", "regparm3", "lightcall2", "lightcall3", "lightcall4"};
@@ -326,9 +389,8 @@ static std::string random_config(vj::Rng& r) {
     uint32_t m = k == 0 ? 0 : k == 1 ? (uint32_t)r.next() : k == 2 ? (uint32_t)(r.next() & r.next()) : k == 3 ? 0xFFFFFFFFu : (1u << r.below(n));
     return m & all;
   };
-  uint32_t dgp = rmask(nregs_gp), dvec = rmask(nregs_vec), dk = isa ? 0 : (r.chance(1, 3) ? rmask(8) : 0), dmm = isa ? 0 : (r.chance(1, 4) ? rmask(8) : 0);
-  // the stack pointer is never a body-clobbered register
-  dgp &= ~(1u << (isa ? 31 : 4));
+  uint32_t spbit = 1u << (isa ? 31 : 4);       // the stack pointer is never a body-clobbered register
+  uint32_t dgp = rmask(nregs_gp) & ~spbit, dvec = rmask(nregs_vec), dk = isa ? 0 : (r.chance(1, 3) ? rmask(8) : 0), dmm = isa ? 0 : (r.chance(1, 4) ? rmask(8) : 0);
   static const unsigned sizes[] = {0, 0, 1, 4, 8, 12, 16, 24, 40, 100, 128, 136, 1000, 4088, 4096, 4104, 32768, 65528, 65535};
   unsigned ls = r.chance(1, 3) ? (unsigned)r.below(65536) : sizes[r.below(19)];
   unsigned cs = r.chance(1, 2) ? 0 : r.chance(1, 2) ? (unsigned)r.below(512) : sizes[r.below(13)];
@@ -347,17 +409,153 @@ static std::string random_config(vj::Rng& r) {
   unsigned ibt = (unsigned)r.chance(1, 8);
   uint32_t cpv = 0, cpk = 0, cpm = 0;
   if (!isa && r.chance(1, 6)) { cpv = rmask(nregs_vec); cpk = r.chance(1, 2) ? rmask(8) : 0; cpm = r.chance(1, 3) ? rmask(8) : 0; }
-  std::string s = "{\"env\":\"" + std::string(envs[e]) + "\",\"cc\":\"" + cc + "\",\"d\":[" + ids_json(dgp) + "," + ids_json(dvec) + "," + ids_json(dk) + "," + ids_json(dmm) + "]";
-  s += ",\"ls\":" + std::to_string(ls) + ",\"la\":" + std::to_string(la) + ",\"cs\":" + std::to_string(cs) + ",\"ca\":" + std::to_string(ca);
-  s += ",\"fp\":" + std::to_string(fp) + ",\"avx\":" + std::to_string(avx) + ",\"mmx\":" + std::to_string(mmx) + ",\"avxc\":" + std::to_string(avxc);
-  s += ",\"nargs\":" + std::to_string(nargs) + ",\"sa\":" + std::to_string(sa) + ",\"calls\":" + std::to_string(calls) + ",\"ibt\":" + std::to_string(ibt);
-  s += ",\"cp\":[[]," + ids_json(cpv) + "," + ids_json(cpk) + "," + ids_json(cpm) + "]}";
+
+  std::vector<std::vector<std::string>> chains;
+  value_chain(r, chains, "set_ls", "update_ls", ls, false);
+  value_chain(r, chains, "set_la", "update_la", la, true);
+  value_chain(r, chains, "set_cs", "update_cs", cs, false);
+  value_chain(r, chains, "set_ca", "update_ca", ca, true);
+  // dirty registers: added in one or two portions, sometimes after a set_dirty_regs() that is overwritten/extended
+  auto dirty_chain = [&](unsigned g, uint32_t m, uint32_t forbid) {
+    if (!m && r.chance(1, 2)) return;
+    std::vector<std::string> c;
+    uint32_t part = m & (uint32_t)r.next();
+    switch (r.below(4)) {
+      case 0: c = {op_json("add_dirty", 0, g, m)}; break;
+      case 1: c = {op_json("add_dirty", 0, g, part), op_json("add_dirty", 0, g, m & ~part)}; break;
+      case 2: c = {op_json("set_dirty", 0, g, (uint32_t)r.next() & 0xFFu & ~forbid), op_json("set_dirty", 0, g, part), op_json("add_dirty", 0, g, m)}; break;
+      default: c = {op_json("set_dirty", 0, g, m)}; break;
+    }
+    chains.push_back(c);
+  };
+  dirty_chain(0, dgp, spbit); dirty_chain(1, dvec, 0);
+  if (dk) dirty_chain(2, dk, 0);
+  if (dmm) dirty_chain(3, dmm, 0);
+  auto flag_chain = [&](const char* set_op, const char* reset_op, bool on) {
+    std::vector<std::string> c;
+    switch (r.below(3)) {
+      case 0: if (on) c = {op_json(set_op)}; else if (r.chance(1, 3)) c = {op_json(reset_op)}; break;
+      case 1: c = on ? std::vector<std::string>{op_json(reset_op), op_json(set_op)} : std::vector<std::string>{op_json(set_op), op_json(reset_op)}; break;
+      default: if (on) c = {op_json(set_op), op_json(set_op)}; break;
+    }
+    if (!c.empty()) chains.push_back(c);
+  };
+  flag_chain("set_fp", "reset_fp", fp);
+  flag_chain("set_calls", "reset_calls", calls);
+  if (!isa) {
+    flag_chain("set_avx", "reset_avx", avx >= 1);
+    flag_chain("set_avx512", "reset_avx512", avx >= 2);
+    flag_chain("set_mmx", "reset_mmx", mmx);
+    flag_chain("set_avxc", "reset_avxc", avxc == 1);
+    flag_chain("set_avxauto", "reset_avxauto", avxc == 2);
+  }
+  flag_chain("set_ibt", "reset_ibt", ibt);
+  if (sa != 255) chains.push_back({op_json("set_sa", sa)});
+  else if (r.chance(1, 8)) chains.push_back({op_json("set_sa", 3), op_json("reset_sa")});
+
+  // random merge of the chains
+  std::string ops;
+  size_t left = 0;
+  std::vector<size_t> pos(chains.size(), 0);
+  for (auto& c : chains) left += c.size();
+  while (left) {
+    size_t k = r.below(chains.size());
+    if (pos[k] >= chains[k].size()) continue;
+    if (!ops.empty()) ops += ",";
+    ops += chains[k][pos[k]++];
+    left--;
+  }
+  std::string s = "{\"env\":\"" + std::string(envs[e]) + "\",\"cc\":\"" + cc + "\",\"src\":\"random\",\"nargs\":" + std::to_string(nargs);
+  s += ",\"cp\":[[]," + ids_json(cpv) + "," + ids_json(cpk) + "," + ids_json(cpm) + "],\"ops\":[" + ops + "]}";
   return s;
 }
 
+// ---------------------------------------------------------------------------------------------------------------------
+// frames derived by the Compiler: a function with one invoke node; BaseRAPass::update_stack_frame() fills the frame in
+// ITS order (call stack size/alignment first while the CFG is built, set_local_stack_alignment/size afterwards) and
+// finalizes it.  The observation's "ops" are the frame's own per-field accessors after the pass (what the pass declared),
+// the prolog/epilog are emitted from that very frame.
+// ---------------------------------------------------------------------------------------------------------------------
+static void compiler_case(FILE* out, const char* env_name, CallConvId callee_cc, const char* callee_name, TypeId vec_arg, unsigned nkeep, bool fp) {
+  Environment env;
+  env_from_name(env_name, env);
+  CodeHolder code;
+  code.init(env);
+  x86::Compiler cc(&code);
+  FuncNode* fn = cc.add_func(FuncSignature::build<void, void*>(CallConvId::kCDecl));
+  fn->frame().set_avx_enabled();
+  if (TypeUtils::size_of(vec_arg) > 32) fn->frame().set_avx512_enabled();
+  if (fp) fn->frame().set_preserved_fp();
+  x86::Gp p = cc.new_gp_ptr("p");
+  fn->set_arg(0, p);
+  unsigned vsize = TypeUtils::size_of(vec_arg);
+  x86::Vec v = vsize > 32 ? cc.new_zmm("v") : vsize > 16 ? cc.new_ymm("v") : cc.new_xmm("v");
+  if (vsize) cc.vmovups(v, x86::ptr(p));
+  std::vector<x86::Gp> keep;
+  for (unsigned i = 0; i < nkeep; i++) { keep.push_back(cc.new_gp_ptr("k")); cc.mov(keep.back(), x86::ptr(p, int32_t(8 * i))); }
+  FuncSignature csig(callee_cc);
+  csig.set_ret(TypeId::kVoid);
+  if (vsize) csig.add_arg(vec_arg);
+  InvokeNode* inv = nullptr;
+  Error e_inv = cc.invoke(Out(inv), imm(0x12345678), csig);
+  if (e_inv == Error::kOk && vsize) inv->set_arg(0, v);
+  for (unsigned i = 0; i < nkeep; i++) cc.add(x86::ptr(p, int32_t(8 * i)), keep[i]);   // live across the call
+  cc.end_func();
+  Error e_fin = cc.finalize();
+  const FuncFrame& fr = fn->frame();
+
+  vj::W w;
+  w.beginObj();
+  w.key("cfg").beginObj().kv("env", env_name).kv("cc", "cdecl").kv("src", "compiler").kv("nargs", 1);
+  w.key("callee").beginObj().kv("cc", callee_name).kv("vec_arg_size", vsize).kv("keep", nkeep).endObj();
+  w.key("cp").beginArr().beginArr().endArr().beginArr().endArr().beginArr().endArr().beginArr().endArr().endArr();
+  // what the register allocator declared, field by field
+  w.key("ops").beginArr();
+  auto op = [&](const char* name, long long a) { w.beginObj().kv("op", name).kv("a", a).kv("g", 0).key("ids").beginArr().endArr().endObj(); };
+  op("update_cs", fr.call_stack_size());
+  op("update_ca", fr.call_stack_alignment());
+  for (unsigned g = 0; g < 4; g++) {
+    w.beginObj().kv("op", "add_dirty").kv("a", 0).kv("g", g).key("ids");
+    put_ids(w, fr.dirty_regs(RegGroup(g)));
+    w.endObj();
+  }
+  op("set_la", fr.local_stack_alignment());
+  op("set_ls", fr.local_stack_size());
+  if (fr.has_preserved_fp()) op("set_fp", 0);
+  if (fr.has_func_calls()) op("set_calls", 0);
+  w.endArr().endObj();
+  log_observation<x86::Builder, x86::Assembler>(w, env, fn->detail(), false, fr, e_inv, Error::kOk, e_fin, out);
+}
+
+static void compiler_cases(FILE* out) {
+  struct Callee { CallConvId cc; const char* name; TypeId arg; };
+  static const Callee callees[] = {
+    {CallConvId::kX64Windows, "x64win", TypeId::kFloat32x8},    // __m256 by value: passed by pointer to a 32-byte aligned copy in the call area
+    {CallConvId::kX64Windows, "x64win", TypeId::kFloat32x16},   // __m512: 64-byte aligned copy
+    {CallConvId::kX64Windows, "x64win", TypeId::kFloat32x4},
+    {CallConvId::kVectorCall, "vectorcall", TypeId::kFloat32x8},
+    {CallConvId::kX64SystemV, "x64sysv", TypeId::kFloat32x8},
+    {CallConvId::kX64SystemV, "x64sysv", TypeId::kVoid},
+  };
+  for (const char* env : {"x64-sysv", "x64-win"})
+    for (const Callee& c : callees)
+      for (unsigned keep : {0u, 3u, 14u})
+        for (bool fp : {false, true})
+          compiler_case(out, env, c.cc, c.name, c.arg, keep, fp);
+}
+
 int main(int argc, char** argv) {
-  if (argc < 4) { fprintf(stderr, "usage: frame script <configs.ndjson> <out.ndjson> | frame random <out.ndjson> <count>\n"); return 3; }
+  if (argc < 3) { fprintf(stderr, "usage: frame script <configs.ndjson> <out.ndjson> | frame random <out.ndjson> <count> | frame compiler <out.ndjson>\n"); return 3; }
   std::string mode = argv[1];
+  if (mode == "compiler") {
+    FILE* out = fopen(argv[2], "w");
+    if (!out) return 3;
+    vj::install_abort_handlers(out);
+    compiler_cases(out);
+    fclose(out);
+    return 0;
+  }
+  if (argc < 4) return 3;
   if (mode == "script") {
     auto cfgs = vj::read_ndjson(argv[2]);
     FILE* out = fopen(argv[3], "w");
